@@ -406,7 +406,68 @@ def r5_batch_axes(repo: Repo, rep):
         rep.check(R, good, fi.site(p.ret_node), fi.fq, "new axis never after the column axis (negative dims shifted by one, dim < ndim asserted)", dump(p.ret), dump(p.ret))
 
 
+def r6_empty_and_slices(repo: Repo, rep):
+    R = rep.rule("R-C12-6", "isempty means no rows AND no columns (the join / concatenation short-cuts drop an operand on it); Space[name slice] equals "
+                 "keys[index(start) : index(stop) : step] with open ends left open, for forward and backward steps", floor=11,
+                 why="a zero-row Points with a real space is not empty: dropping it loses its columns; explicit default bounds break negative steps")
+    P = repo.cls(PTS)
+    fi = P.methods.get("isempty")
+    if fi is None:
+        raise AnalysisError("Points.isempty vanished")
+    rep.saw(fi)
+    n = 0
+    for p in paths(fi.node):
+        if p.ret is RAISE or p.ret is None:
+            continue
+        n += 1
+        # collect the conjuncts of the returned condition (guards of short-circuit forms included)
+        conj = []
+
+        def flat(e):
+            if isinstance(e, ast.BoolOp) and isinstance(e.op, ast.And):
+                for v in e.values:
+                    flat(v)
+            else:
+                conj.append(dump(e).replace(" ", ""))
+        flat(p.ret)
+        conj += [dump(g).replace(" ", "") for g, pol, k in p.guards if k == "if" and pol]
+        if dump(p.ret) == "False":
+            continue  # a short-circuit `return False` branch
+        rows = any(c in ("len(self)==0", "0==len(self)", "len(self._t)==0", "self._t.shape[0]==0") for c in conj)
+        cols = any(c in ("self.space.dim==0", "0==self.space.dim", "self._t.shape[-1]==0", "len(self.space)==0", "self.dim==0") for c in conj)
+        rep.check(R, rows and cols, fi.site(p.ret_node), fi.fq, "isempty == (no rows) and (no columns)", f"conditions {conj}", f"isempty: {conj}")
+    if n == 0:
+        rep.undecided(R, fi.site(), fi.fq, "a returning path", "none")
+    # Space.__getitem__ with name slices: partial evaluation on a four-variable space against the slice semantics of the key list
+    from collections import OrderedDict
+    from ..absdom.listeval import Evaluator, NotEval, UNKNOWN
+    S = repo.cls(SPC)
+    gi = S.methods.get("__getitem__")
+    if gi is None:
+        raise AnalysisError("Space.__getitem__ vanished")
+    keys = ["a", "b", "c", "d"]
+    space = OrderedDict((k, i + 1) for i, k in enumerate(keys))
+    cases = [(None, None, None), ("b", None, None), (None, "c", None), ("b", "d", None), (None, None, -1), ("c", None, -1), (None, "b", -1), ("d", "a", -1), (None, None, 2), ("a", None, 2)]
+    for st, sp, step in cases:
+        idx = slice(keys.index(st) if st is not None else None, keys.index(sp) if sp is not None else None, step)
+        want = keys[idx]
+
+        def on_call(e, name, args, kws, ev, f):
+            if name == "Space" and args and isinstance(args[0], dict):
+                return args[0]
+            return None
+        fr = Evaluator(None, on_call).run(gi.node.body, {"self": OrderedDict(space), gi.params[1]: slice(st, sp, step)})
+        got = fr.ret
+        label = f"space['{st or ''}':'{sp or ''}':{step or ''}]"
+        if not isinstance(got, dict):
+            rep.undecided(R, gi.site(), gi.fq, f"{label} evaluable", repr(got)[:80])
+            continue
+        ok = list(got.keys()) == want and all(got[k] == space[k] for k in want)
+        rep.check(R, ok, gi.site(), gi.fq, f"{label} of (a, b, c, d) == {want}", f"{list(got.keys())}", f"{label}: {list(got.keys())}")
+
+
 def run(repo: Repo, rep):
+    r6_empty_and_slices(repo, rep)
     r1_pairing(repo, rep)
     r2_slices(repo, rep)
     r3_selection(repo, rep)
